@@ -18,7 +18,12 @@ import (
 	"github.com/omec-project/upf-epc/internal/p4constants"
 	pb "github.com/omec-project/upf-epc/pfcpiface/bess_pb"
 	p4 "github.com/p4lang/p4runtime/go/p4/v1"
+	"github.com/wmnsk/go-pfcp/ie"
+	"github.com/wmnsk/go-pfcp/message"
 )
+
+var _ *ie.IE
+var _ message.Message
 
 var _ = p4constants.MeterPreQosPipeSliceTcMeter
 
@@ -101,6 +106,26 @@ func ptrAt[T any](ref int) *T { panic("ghost builtin") }
 func sliceRef[T any](s []T) int { panic("ghost builtin") }
 
 func elemAt[T any](ref int, a int) T { panic("ghost builtin") }
+
+// Ghost view of a sync.Map (keys are integers or strings at each use): smHas reports presence of
+// key k, smIs[T] whether the stored value has dynamic type T, smGet[T] the stored value as T.
+func smHas[K comparable](m *sync.Map, k K) bool { panic("ghost builtin") }
+
+func smIs[K comparable, T any](m *sync.Map, k K, zero T) bool { panic("ghost builtin") }
+
+func smGet[K comparable, T any](m *sync.Map, k K, zero T) T { panic("ghost builtin") }
+
+// timeNanos is the instant of t as a number (ghost view of the opaque time.Time).
+func timeNanos(t time.Time) int64 { panic("ghost builtin") }
+
+// gclock is the ghost clock: the latest instant returned by time.Now / used by time.Since.
+func gclock() int64 { panic("ghost builtin") }
+
+// chanRef is the identity of a channel.
+func chanRef[T any](c chan<- T) int { panic("ghost builtin") }
+
+// dynRef is the identity of the object held by an interface value (pointer payloads).
+func dynRef(x any) int { panic("ghost builtin") }
 
 // nonNil reports whether a pointer, slice, or interface payload reference is non-nil.
 func nonNil[T any](x T) bool { panic("ghost builtin") }
@@ -533,3 +558,100 @@ func specMeterEntry(e int, k int) *p4.MeterEntry {
 //@   ensures C19.up4.ok: err == nil ==> glen("p4meter") == old[int](glen("p4meter"))+1
 //@   ensures C19.up4.entry: glen("p4meter") == old[int](glen("p4meter"))+1 ==> gfield("p4meter.method", gentry("p4meter", old[int](glen("p4meter")))) == uint64(p4.Update_MODIFY) && gfield("p4meter.n", gentry("p4meter", old[int](glen("p4meter")))) == 1 && specMeterEntry(gentry("p4meter", old[int](glen("p4meter"))), 0).MeterId == p4constants.MeterPreQosPipeSliceTcMeter && specMeterEntry(gentry("p4meter", old[int](glen("p4meter"))), 0).Index.Index == int64(up4.conf.SliceID)*4+int64(up4.conf.DefaultTC)
 //@   ensures C19.up4.rate: glen("p4meter") == old[int](glen("p4meter"))+1 ==> specMeterEntry(gentry("p4meter", old[int](glen("p4meter"))), 0).Config.Pir == int64(maxUint64(sliceInfo.uplinkMbr, sliceInfo.downlinkMbr)) && (sliceInfo.uplinkMbr > sliceInfo.downlinkMbr ==> specMeterEntry(gentry("p4meter", old[int](glen("p4meter"))), 0).Config.Pburst == int64(sliceInfo.ulBurstBytes)) && (sliceInfo.uplinkMbr <= sliceInfo.downlinkMbr ==> specMeterEntry(gentry("p4meter", old[int](glen("p4meter"))), 0).Config.Pburst == int64(sliceInfo.dlBurstBytes))
+
+// ---------------------------------------------------------------------------
+// C13: downlink data notifications, at most one per interval and session
+// ---------------------------------------------------------------------------
+
+func specLastNotified(n *downlinkDataNotifier, fseid uint64) int64 {
+	return timeNanos(smGet(&n.state, fseid, time.Time{}))
+}
+
+// notifierInv: everything stored in the rate-limiter memory is a time.Time taken from the clock.
+func notifierInv(n *downlinkDataNotifier) bool {
+	return n != nil && n.notificationInterval > 0 && gclock() >= 0 && gclock() < 1<<62 && forall(func(k uint64) bool {
+		return implies(smHas(&n.state, k), smIs(&n.state, k, time.Time{}) && 0 <= specLastNotified(n, k) && specLastNotified(n, k) <= gclock())
+	})
+}
+
+//@ func (n *downlinkDataNotifier) shouldNotify(fseid uint64) (r bool)
+//@   requires notifierInv(n)
+//@   ensures C13.inv: notifierInv(n)
+//@   ensures C13.first: !old[bool](smHas(&n.state, fseid)) ==> r
+//@   ensures C13.rate: old[bool](smHas(&n.state, fseid)) && r ==> gclock()-old[int64](specLastNotified(n, fseid)) >= int64(n.notificationInterval)
+//@   ensures C13.due: old[bool](smHas(&n.state, fseid)) && !r ==> old[int64](gclock())-old[int64](specLastNotified(n, fseid)) < int64(n.notificationInterval) || n.notificationInterval > 0 && gclock() > old[int64](gclock())
+//@   ensures C13.stamp: r ==> smHas(&n.state, fseid) && specLastNotified(n, fseid) == gclock() && gclock() >= old[int64](gclock())
+//@   ensures C13.keep: !r ==> smHas(&n.state, fseid) && specLastNotified(n, fseid) == old[int64](specLastNotified(n, fseid))
+//@   ensures C13.others: forall k uint64 :: k != fseid ==> (smHas(&n.state, k) <==> old[bool](smHas(&n.state, k))) && (smHas(&n.state, k) ==> specLastNotified(n, k) == old[int64](specLastNotified(n, k)))
+
+// Ghost log "send": one entry per value sent on a channel (fields send.chan, send.val).
+//@ func (n *downlinkDataNotifier) Notify(fseid uint64)
+//@   requires notifierInv(n)
+//@   ensures C13.notify.inv: notifierInv(n)
+//@   ensures C13.notify.sent: !old[bool](smHas(&n.state, fseid)) || specLastNotified(n, fseid) != old[int64](specLastNotified(n, fseid)) ==> glen("send") == old[int](glen("send"))+1 && gfield("send.val", gentry("send", old[int](glen("send")))) == fseid && gfield("send.chan", gentry("send", old[int](glen("send")))) == uint64(chanRef(n.notifyChan))
+//@   ensures C13.notify.quiet: old[bool](smHas(&n.state, fseid)) && specLastNotified(n, fseid) == old[int64](specLastNotified(n, fseid)) ==> glen("send") == old[int](glen("send"))
+
+// ---------------------------------------------------------------------------
+// PFCP association object: invariant, ghost view of the session store, send log
+// ---------------------------------------------------------------------------
+
+// connInv: the structural invariant every method of an association may rely on (established by
+// NewPFCPConn, never broken afterwards).
+func connInv(pConn *PFCPConn) bool {
+	return pConn != nil && pConn.upf != nil && pConn.Conn != nil && pConn.store != nil && typeIs[*InMemoryStore](pConn.store) && dynRef(pConn.store) != 0 &&
+		pConn.nodeID.localIE != nil && !held(&pConn.seqNum.mux)
+}
+
+func specStore(pConn *PFCPConn) *InMemoryStore { return pConn.store.(*InMemoryStore) }
+
+// specHasSession / specSession: the stored sessions of the association.
+func specHasSession(pConn *PFCPConn, seid uint64) bool {
+	return smHas(&specStore(pConn).sessions, seid) && smIs(&specStore(pConn).sessions, seid, PFCPSession{})
+}
+
+func specSession(pConn *PFCPConn, seid uint64) PFCPSession {
+	return smGet(&specStore(pConn).sessions, seid, PFCPSession{})
+}
+
+// Ghost log "pfcpout": one entry per message handed to SendPFCPMsg (field pfcpout.msg: identity of
+// the message object). Marshalling and the socket write are below this boundary.
+//@ func (pConn *PFCPConn) SendPFCPMsg(msg message.Message)
+//@   trusted
+//@   requires msg != nil
+//@   appends pfcpout
+//@   ensures gfield("pfcpout.msg", gentry("pfcpout", glen("pfcpout")-1)) == uint64(dynRef(msg))
+
+// ---- C13: report construction ----
+
+// specIsFirstCorePdr: index j holds the first PDR of the session whose source interface is core.
+func specIsFirstCorePdr(s PFCPSession, j int) bool {
+	return lo(s.pdrs) <= j && j < hi(s.pdrs) && at(s.pdrs, j).srcIface == core &&
+		forall(func(i int) bool { return implies(lo(s.pdrs) <= i && i < j, at(s.pdrs, i).srcIface != core) })
+}
+
+func specNoCorePdr(s PFCPSession) bool {
+	return forall(func(i int) bool { return implies(lo(s.pdrs) <= i && i < hi(s.pdrs), at(s.pdrs, i).srcIface != core) })
+}
+
+// specFarRefusesNotify: some FAR with this id does not ask for notification.
+func specFarRefusesNotify(s PFCPSession, farID uint32) bool {
+	return exists(func(i int) bool {
+		return lo(s.fars) <= i && i < hi(s.fars) && at(s.fars, i).farID == farID && at(s.fars, i).applyAction&ActionNotify == 0
+	})
+}
+
+func specReportMsg(e int) *message.SessionReportRequest {
+	return ptrAt[message.SessionReportRequest](int(gfield("pfcpout.msg", e)))
+}
+
+//@ func (pConn *PFCPConn) handleDigestReport(fseid uint64)
+//@   requires connInv(pConn)
+//@   logical j int
+//@   ensures C13.report.atmost: glen("pfcpout") <= old[int](glen("pfcpout"))+1
+//@   ensures C13.report.unknown: !old[bool](specHasSession(pConn, fseid)) ==> glen("pfcpout") == old[int](glen("pfcpout"))
+//@   ensures C13.report.nopdr: old[bool](specHasSession(pConn, fseid)) && old[bool](specNoCorePdr(specSession(pConn, fseid))) ==> glen("pfcpout") == old[int](glen("pfcpout"))
+//@   ensures C13.report.sent: old[bool](specHasSession(pConn, fseid)) && old[bool](specIsFirstCorePdr(specSession(pConn, fseid), j)) ==> ((glen("pfcpout") == old[int](glen("pfcpout"))+1) <==> old[bool](at(specSession(pConn, fseid).pdrs, j).pdrID != 0 && !specFarRefusesNotify(specSession(pConn, fseid), at(specSession(pConn, fseid).pdrs, j).farID)))
+//@   ensures C13.report.addr: glen("pfcpout") == old[int](glen("pfcpout"))+1 ==> specReportMsg(gentry("pfcpout", old[int](glen("pfcpout")))).Header.SEID == old[uint64](specSession(pConn, fseid).remoteSEID) && specReportMsg(gentry("pfcpout", old[int](glen("pfcpout")))).Header.SequenceNumber == old[uint32](pConn.seqNum.seq)+1
+//@   ensures C13.report.pdr: glen("pfcpout") == old[int](glen("pfcpout"))+1 && old[bool](specIsFirstCorePdr(specSession(pConn, fseid), j)) ==> specReportMsg(gentry("pfcpout", old[int](glen("pfcpout")))).DownlinkDataReport != nil && specIEu16(specIEChild0(specReportMsg(gentry("pfcpout", old[int](glen("pfcpout")))).DownlinkDataReport)) == uint16(old[uint32](at(specSession(pConn, fseid).pdrs, j).pdrID))
+//@   loop 1 invariant C13.report.l1: rangeidx+1 <= len(session.pdrs) && (forall i int :: lo(session.pdrs) <= i && i < lo(session.pdrs)+rangeidx+1 ==> at(session.pdrs, i).srcIface != core)
+//@   loop 2 invariant C13.report.l2: rangeidx+1 <= len(session.fars) && (forall i int :: lo(session.fars) <= i && i < lo(session.fars)+rangeidx+1 ==> !(at(session.fars, i).farID == farID && at(session.fars, i).applyAction&ActionNotify == 0))
